@@ -184,7 +184,7 @@ impl Scenario for MatchScenario {
 						FeOp::Call | FeOp::LateCall | FeOp::AbandonCall => format!("\"r{k}\""),
 						FeOp::Subscribe | FeOp::SubscribeDrop | FeOp::SubscribeHold | FeOp::LateSubscribe if self.extras.contains(&Extra::ConstSubscriptionId) => "Subscription(Str(\"SX\"))".to_string(),
 						FeOp::Subscribe | FeOp::SubscribeDrop | FeOp::SubscribeHold | FeOp::LateSubscribe => format!("Subscription(Str(\"S{k}\"))"),
-						FeOp::Batch(n) | FeOp::LateBatch(n) => format!("[{}]", (0..*n).map(|j| format!("\"r{k}.{j}\"")).collect::<Vec<_>>().join(",")),
+						FeOp::Batch(n) | FeOp::LateBatch(n) | FeOp::BatchStr(n) => format!("[{}]", (0..*n).map(|j| format!("\"r{k}.{j}\"")).collect::<Vec<_>>().join(",")),
 						FeOp::Notif | FeOp::RegisterNotif | FeOp::NotifBurst(_) => "sent".into(),
 					};
 					// batch summaries carry `#s..f..o..` after the entry list; C03 compares the entries
